@@ -619,7 +619,7 @@ pub fn parts() -> Vec<Box<dyn PartDyn>> {
         Box::new(Part::<Case> {
             name: "decode",
             rule: "URLs assembled from components (scheme amqp/amqps/AMQP/http/amqpx; host absent/localhost/127.0.0.1/example.com/[::1]; port absent or 1-65535; user/password absent or arbitrary Unicode percent-encoded by the harness; vhost none, '/', arbitrary encoded; extra path segments; 0-4 query parameters in any order incl. repeated, boundary, empty, negative and non-numeric values, auth_mechanism external/other, unknown keys), decoded through the decode_url hook; oracle: the components the URL was assembled from (defaults per the property), or the set of specific errors the URL's defects allow; plus Connection::open => InsecureUrl for every decodable amqp:// URL; non-trivial = percent-encoded or defaulted component or error case; distinct by case hash",
-            cases: |t| t.pick(60_000, 3_000_000),
+            cases: |t| t.pick(300_000, 5_000_000),
             threads: 16,
             strategy: strat,
             exec,
@@ -630,7 +630,7 @@ pub fn parts() -> Vec<Box<dyn PartDyn>> {
         Box::new(Part::<NetCase> {
             name: "loopback",
             rule: "Connection::insecure_open(url) against a loopback TCP broker inside the harness: StartOk mechanism/response, Open.virtual_host and TuneOk must be what the URL spells out; every case non-trivial",
-            cases: |t| t.pick(40, 1500),
+            cases: |t| t.pick(100, 3000),
             threads: 8,
             strategy: strat_net,
             exec: exec_net,
